@@ -16,7 +16,10 @@ CONSTANTS
   FixRevertVerify = TRUE
   FixUnderflow = TRUE
   Fine = FALSE
+  EmptyDiff = {2, 4}
+  RootCheckedOnEmptyDiff = TRUE
+  VerdictPerAnswer = TRUE
 SPECIFICATION FairSpec
-INVARIANTS TypeOK LocalIsSourceBlocks ReorgExact
+INVARIANTS TypeOK LocalIsSourceBlocks ReorgExact StoredOnlyVerified
 PROPERTIES RestartIsNoOp EventuallyConverges StoreSafe HeadMovesOnlyByStoreOrRevert RevertsJustified RevertsHaveEvidence
 CHECK_DEADLOCK TRUE
